@@ -180,6 +180,16 @@ inline std::vector<Abstract> seed_grammars()
     add("nullable-ladder4", 4, {mk(0, {N(1), N(1), N(1), N(2)}), mk(2, {N(1), N(1), N(1), N(3)}), mk(3, {N(1), T(0)}), mk(1, {})});
     // statement-like rules of 5 and 6 symbols
     add("long-rules", 3, {mk(0, {T(0), N(1), T(1), N(2), T(2)}), mk(0, {T(0), N(1), T(1), N(2), T(3), N(0)}), mk(1, {T(4)}), mk(1, {N(1), T(5), T(4)}), mk(2, {T(4), T(4)}), mk(2, {})});
+    // one nonterminal with many alternatives in front of something with a wide FIRST set (closure sets: alternatives x lookaheads)
+    add("wide-alternatives", 3, {mk(0, {N(1), N(2)}),
+        mk(1, {T(5), T(0)}), mk(1, {T(5), T(1)}), mk(1, {T(5), T(2)}), mk(1, {T(5), T(3)}), mk(1, {T(5), T(4)}),
+        mk(1, {T(5), T(5), T(0)}), mk(1, {T(5), T(5), T(1)}), mk(1, {T(5), T(5), T(2)}), mk(1, {T(5), T(5), T(3)}), mk(1, {T(5), T(5), T(4)}),
+        mk(1, {T(5), T(5), T(5), T(0)}), mk(1, {T(5), T(5), T(5), T(1)}), mk(1, {T(5), T(5), T(5), T(2)}),
+        mk(2, {}), mk(2, {T(0)}), mk(2, {T(1)}), mk(2, {T(2)}), mk(2, {T(3)}), mk(2, {T(4)})});
+    // nullability discovered late through a chain that adds nothing to FIRST; nonterminals declared top-down; FIRST used as a lookahead
+    add("late-nullable", 6, {mk(0, {N(1), N(2)}), mk(1, {T(0)}), mk(2, {N(3), T(1)}), mk(3, {T(2), N(3)}), mk(3, {N(4)}), mk(4, {N(5)}), mk(5, {})});
+    // an optional part in the middle of a rule, behind a nonterminal and in front of something that is not nullable
+    add("optional-in-middle", 5, {mk(0, {N(1), N(2), T(0), N(3), T(1)}), mk(1, {T(2)}), mk(1, {T(3), T(2)}), mk(2, {}), mk(2, {T(4)}), mk(3, {}), mk(3, {T(5), N(4)}), mk(4, {T(2)}), mk(4, {N(4), T(4), T(2)})});
     // palindromic-like nesting
     add("nesting", 2, {mk(0, {T(0), N(0), T(1)}), mk(0, {T(0), N(1), T(1)}), mk(1, {T(2)}), mk(1, {T(2), N(1)})});
     return v;
@@ -296,6 +306,18 @@ inline Grammar gen_grammar(Choice& ch, Flavor fl, std::string& strategy, const s
             }
         }
     }
+    // precedence levels spaced the way real grammars write them (100, 200, ... or larger): same order, values beyond 8 and 16 bits
+    {
+        bool any = false; for (int p : a.tprec) if (p) any = true; for (auto& r : a.rules) if (r.has_prec && r.prec) any = true;
+        if (any && ch.chance(1, 5))
+        {
+            static const int scale[] = {50, 100, 1000, 40000};
+            int k = scale[ch.below(4)];
+            for (int& p : a.tprec) p *= k;
+            for (auto& r : a.rules) if (r.has_prec) r.prec *= k;
+            a.strategy += "+wide-precedence-values";
+        }
+    }
     strategy = a.strategy;
     return assign_slots(a, ch, true, slots);
 }
@@ -406,7 +428,8 @@ inline bool deep_sentence(const Grammar& g, const ref::Analysis& an, size_t N, e
         if (!path(x, x, true, u, v)) continue;
         if (u.empty() && v.empty()) continue;            // unit cycle: no input consumed
         minsent(x, w);
-        if ((u.size() + v.size()) * N > 60000) continue;
+        if (N > 20000) N = N / (u.size() + v.size()) + 1;          // N above 20000 is a target number of terms, not of rounds
+        if ((u.size() + v.size()) * N > 80000) continue;
         out = p;
         for (size_t i = 0; i < N; ++i) out.insert(out.end(), u.begin(), u.end());
         out.insert(out.end(), w.begin(), w.end());
